@@ -9,7 +9,30 @@ from vlib import core, httpcheck as hc, httpgen as hg
 
 DEVS = {"codegen.param_alias_default": "param/alias+default", "codegen.api_error_user_type": "error/api-level-user-type",
         "codegen.recursive_result_type_views": "views/recursive-result-type",
-        "codegen.primitive_payload_in_header": "payload/whole-in-header"}
+        "codegen.primitive_payload_in_header": "payload/whole-in-header",
+        "codegen.map_key_not_json_encodable": "map/key-not-json"}
+
+# containers keyed / filled by every primitive kind (the transport envelope keeps map keys to string and int)
+KEY_KINDS = ["string", "int", "int32", "int64", "uint", "uint32", "uint64", "float32", "float64", "bool"]
+NOT_JSON_KEYS = ("float32", "float64", "bool")
+
+
+def container_programs():
+    """One design per map key kind: the map as a body attribute, as a nested map value, as the whole payload and as the
+    whole result.  [(design, class, label)]"""
+    out = []
+    for k in KEY_KINDS:
+        m = {"kind": "map", "key": {"kind": k}, "elem": {"kind": "string"}}
+        methods = [
+            {"name": "m1", "payload": {"attrs": [{"name": "a1", "type": m, "required": True}]},
+             "result": {"attrs": [{"name": "r1", "type": {"kind": "map", "key": {"kind": k}, "elem": {"kind": "array", "elem": {"kind": "int"}}}}]},
+             "http": {"routes": [{"verb": "POST", "path": "/m1"}]}},
+            {"name": "m2", "payload": {"type": m}, "result": {"type": {"kind": "map", "key": {"kind": "string"}, "elem": m}},
+             "http": {"routes": [{"verb": "POST", "path": "/m2"}]}},
+        ]
+        d = {"api": {"name": "ck" + k}, "services": [{"name": "s1", "methods": methods}]}
+        out.append((d, "map/key-not-json" if k in NOT_JSON_KEYS else "plain", "containers:map-key-" + k))
+    return out
 
 
 def family_programs(ctx, quick):
@@ -44,7 +67,7 @@ def family_programs(ctx, quick):
         out.append((d, "plain", "security:%s" % d["api"]["name"]))
     for g in ("G1", "G2", "G3", "G4", "G5", "G6", "G7", "G8"):
         out.append((c08.design(g), "views/recursive-result-type" if g == "G4" else "plain", "views:" + g))
-    return out
+    return out + container_programs()
 
 
 def design_class(sh):
